@@ -10,9 +10,9 @@ PFLAGS = ["--bounds-check", "--pointer-check", "--signed-overflow-check", "--con
 FLAGS = PFLAGS + ["--no-malloc-may-fail", "--object-bits", "12"]
 
 LESS = dict(name="less", file=PD, sig=r"bool ompl::base::PlannerSolution::operator<\(const PlannerSolution &b\) const",
-            rules=[(r"\bb\.(\w+)", r"b->\1", 4),
-                   (r"(?<![\w>.])(approximate_|difference_|optimized_|cost_|length_|opt_)\b", r"a->\1", 4),
-                   (r"a->opt_->isCostBetterThan\(", "isCostBetterThan(", 1)], loops={})
+            rules=[(r"\bb\.(\w+)", r"b->\1", 0),
+                   (r"(?<![\w>.])(approximate_|difference_|optimized_|cost_|length_|opt_)\b", r"a->\1", 0),
+                   (r"a->opt_->isCostBetterThan\(", "isCostBetterThan(", 0)], loops={})
 COST_RULES = [(r"\bCost\(([^;]*)\);", r"(\1);", 0), (r"(\w+)\.value\(\)", r"\1", 0), (r"std::numeric_limits<double>::infinity\(\)", "INF_D", 0), (r"this->", "", 0)]
 
 
@@ -34,7 +34,7 @@ OBJ_SOURCES = [
     O("combine", OO, r"ompl::base::Cost ompl::base::OptimizationObjective::combineCosts\(Cost c1, Cost c2\) const"),
     O("minimax_combine", MM, r"ompl::base::Cost ompl::base::MinimaxObjective::combineCosts\(Cost c1, Cost c2\) const"),
 ]
-SET_RULES = [(r"std::lock_guard<std::mutex> slock\(lock_\);", "", 1),
+SET_RULES = [(r"std::lock_guard<std::mutex> slock\(lock_\);", "", 0),
              (r"solutions_\.size\(\)", "solutions__size", 0), (r"solutions_\.empty\(\)", "(solutions__size == 0)", 0),
              (r"solutions_\.push_back\(s\);", "VEC_PUSH_PS(s);", 0), (r"solutions_\.back\(\)", "solutions_[solutions__size - 1]", 0),
              (r"std::sort\(solutions_\.begin\(\), solutions_\.end\(\)\);", "SORT_SOLUTIONS();", 0),
@@ -73,11 +73,11 @@ UNITS = [
          replace=["identityCost", "initialCost", "terminalCost", "motionCost", "combineCosts"],
          functions=["ompl::geometric::PathGeometric::cost"],
          sources=[dict(name="cost", file=PG, sig=r"ompl::base::Cost ompl::geometric::PathGeometric::cost\(const base::OptimizationObjectivePtr &opt\) const",
-                       rules=[(r"states_\.empty\(\)", "(states__size == 0)", 1), (r"states_\.size\(\)", "states__size", 1), (r"std::size_t", "size_t", 1),
-                              (r"opt->identityCost\(\)", "identityCost()", 1), (r"opt->initialCost\(states_\.front\(\)\)", "initialCost(0)", 1),
-                              (r"opt->motionCost\(states_\[([^\]]+)\], states_\[([^\]]+)\]\)", r"motionCost(\1, \2)", 1),
-                              (r"opt->terminalCost\(states_\.back\(\)\)", "terminalCost(states__size - 1)", 1),
-                              (r"opt->combineCosts\(", "combineCosts(", 2), (r"base::Cost cost\(([^;]+)\);", r"Cost cost = (\1);", 1)],
+                       rules=[(r"states_\.empty\(\)", "(states__size == 0)", 0), (r"states_\.size\(\)", "states__size", 0), (r"std::size_t", "size_t", 0),
+                              (r"opt->identityCost\(\)", "identityCost()", 0), (r"opt->initialCost\(states_\.front\(\)\)", "initialCost(0)", 0),
+                              (r"opt->motionCost\(states_\[([^\]]+)\], states_\[([^\]]+)\]\)", r"motionCost(\1, \2)", 0),
+                              (r"opt->terminalCost\(states_\.back\(\)\)", "terminalCost(states__size - 1)", 0),
+                              (r"opt->combineCosts\(", "combineCosts(", 0), (r"base::Cost cost\(([^;]+)\);", r"Cost cost = (\1);", 0)],
                        loops={1: """
 __CPROVER_assigns(i, cost, ACC, order_ok, chain_ok, motions_at_G, next_motion, last_is_motion, LAST_MOTION_RES)
 __CPROVER_loop_invariant(1 <= i && i <= states__size && next_motion == i && order_ok && chain_ok && init_done && !term_done && cost == ACC && cost == cost)
